@@ -246,7 +246,7 @@ class BG:
             return t[slice(a, b)]
         if left:
             return sl(d, n, None), [self.under(sl(d, None, n), c)]
-        return sl(d, None, -n), [self.over(c, sl(d, (-n or L), None))]
+        return sl(d, None, L - n), [self.over(c, sl(d, (-n or L), None))]
 
     def curry(self, depth, curry_depth):
         gi, rng = self.gi, self.rng
@@ -274,13 +274,13 @@ def gen_b2r(rng, tier):
 
     def single(b, d, c):
         return [gi.B2R, d, c, [b], [0]]
-    # corpus: F16 and friends
+    # corpus: the former minimal inputs of F16 / F21 (fixed upstream) are ordinary regression cases
     u_comp = [2, [y, z], [x]]
     progs += [
-        (single([gi.XBA, [u_comp]], [y, z, u_comp], [x]), 1),                       # F16 minimal input
+        (single([gi.XBA, [u_comp]], [y, z, u_comp], [x]), 1),                       # was F16 (fixed 20fba5f)
         (single([gi.XBA, [u_comp]], [y, z, u_comp], [x]), 0),
-        (single([gi.XBA, [[2, [y, yy], [x]]]], [y, yy, [2, [y, yy], [x]]], [x]), 1),   # F16: silently mistyped
-        (single([gi.XBA, [[2, [], [x]]]], [[2, [], [x]]], [x]), 1),                  # F16: empty left
+        (single([gi.XBA, [[2, [y, yy], [x]]]], [y, yy, [2, [y, yy], [x]]], [x]), 1),   # was F16: silently mistyped
+        (single([gi.XBA, [[2, [], [x]]]], [[2, [], [x]]], [x]), 1),                  # was F16: empty left
         (single([gi.XBA, [[2, [], []]]], [[2, [], []]], []), 1),
         (single([gi.XBA, [[2, [y], [x]]]], [y, [2, [y], [x]]], [x]), 1),
         (single([gi.XBA, [[2, [e], [x]]]], [e, [2, [e], [x]]], [x]), 1),
@@ -634,57 +634,22 @@ def oracle_cfg(gi, p, sentences):
     return None
 
 
-# ====================================================================== known findings
-def has_composite_ba(gi, boxes):
-    """trigger of F16: a BA box whose under.left is not a single object"""
-    for b in boxes:
-        if b[0] == gi.XBA and len(b[1]) == 1 and b[1][0][0] == 2 and len(b[1][0][1]) != 1:
-            return True
-        if b[0] == gi.XCURRY and has_composite_ba(gi, b[3]):
-            return True
-    return False
-
-
-def image_len(x):
-    if x[0] == 0:
-        return 1
-    return sum(image_len(y) for y in x[1]) + sum(image_len(y) for y in x[2])
-
-
-def has_empty_right_curry(gi, boxes):
-    """trigger of F20: a right Curry box whose curried wires have an empty image
-    (n_wires == 0, or wires whose slash types translate to Ty()) while the
-    curried diagram has a non-empty domain image"""
+# ====================================================================== contract of Curry
+def out_of_range_right_curry(gi, boxes):
+    """a right Curry box (at any depth) whose n_wires is outside the documented
+    range 0 <= n_wires <= len(diagram.dom): Curry.__init__ then builds a box whose
+    domain dom[:len(dom) - n_wires] and curried wires dom[-n_wires or len(dom):]
+    overlap or leave a gap; such requests are compared with the model but not
+    judged by the image oracle (theorem curry_overlong_refuted)"""
     for b in boxes:
         if b[0] != gi.XCURRY:
             continue
-        if has_empty_right_curry(gi, b[3]):
+        if out_of_range_right_curry(gi, b[3]):
             return True
         d, n, left = b[1], b[5], b[6]
-        if not left:
-            wires = d[slice((-n or len(d)), None)]
-            if sum(image_len(y) for y in wires) == 0 and sum(image_len(y) for y in d) > 0:
-                return True
+        if not left and not 0 <= n <= len(d):
+            return True
     return False
-
-
-FINDINGS = {
-    "F16": ("biclosed.Functor.__call__ splits the domain of a BA box at dom[:1]/dom[1:] instead of "
-            "dom[:-1]/dom[-1:]: biclosed2rigid(BA((y @ z) >> x)) raises AxiomError (and with left = "
-            "y @ (y >> Ty()) silently returns a diagram with the wrong codomain)", has_composite_ba),
-    "F20": ("right currying of wires with an empty image: rigid.Diagram.curry slices "
-            "diagram.dom[:-n_wires] with n_wires == 0, so biclosed2rigid(Curry(Box('f', x, y), "
-            "n_wires=0)) raises AxiomError (same for a last wire Ty() << Ty())", has_empty_right_curry),
-}
-
-
-def finding_status():
-    """ids listed as fixed in known_findings.json no longer excuse anything"""
-    fixed = set()
-    for e in common.load_known_findings():
-        if e.get("property") == "C18" and e.get("status") == "fixed":
-            fixed.add(e.get("id"))
-    return fixed
 
 
 # ====================================================================== the check
@@ -695,7 +660,6 @@ def run(tier, seed):
     proof_ok = common.proof_stage(rep, "C18")
     ensure_model()
     rng = random.Random(seed)
-    fixed = finding_status()
 
     eager = gen_eager(rng, tier)
     brute = gen_brute(rng, tier)
@@ -748,7 +712,7 @@ def run(tier, seed):
                           {"program": q, "aux": aux, "impl": a, "replay": snippet(p, aux)})
             continue
         # ---- property oracles on the implementation's own result
-        bad, known = None, None
+        bad = None
         if op == gi.EAGER:
             if a[0] == 0:
                 from discopy.grammar import pregroup
@@ -770,19 +734,16 @@ def run(tier, seed):
                 bad = "brute_force raised"
         elif op == gi.B2R:
             tag, D = gi.guarded(gi.bdiagram, p[1], p[2], p[3], p[4])
-            if tag == 0:
+            if tag != 0:
+                rep.count("b2r:malformed")
+            elif out_of_range_right_curry(gi, p[3]):
+                rep.count("b2r:curry-out-of-contract")
+            else:
                 rep.count("b2r:well-formed")
                 if a[0] == 0:
                     bad = oracle_image(gi, D, value)
                 else:
                     bad = "translation of a well-typed biclosed diagram refused (error %d)" % a[1]
-                if bad:
-                    for fid, (what, trigger) in FINDINGS.items():
-                        if fid not in fixed and agree and trigger(gi, p[3]):
-                            known = (fid, what)
-                            break
-            else:
-                rep.count("b2r:malformed")
         elif op == gi.OB:
             bad = oracle_object_map(gi, p[1], value) if a[0] == 0 else "object map raised"
         elif op == gi.CFG:
@@ -811,10 +772,7 @@ def run(tier, seed):
                 rep.count("tree:boxes=%d" % min(len(D.boxes), 8))
             elif want is not None:
                 bad = "tree2diagram refused a well-typed derivation tree (error %d)" % a[1]
-        if bad and known:
-            rep.known_finding(known[0], known[1])
-            rep.count("known:" + known[0])
-        elif bad:
+        if bad:
             rep.violation(bad, {"program": q, "aux": aux, "impl": a, "model": b,
                                 "replay": snippet(p, aux)})
     base.settle(rep, "C18", proof_ok, "C18")
@@ -822,7 +780,7 @@ def run(tier, seed):
         rule="eager_parse: hand corpus, every sentence of <= 3 words over 10 word types, sentences made by "
              "un-contracting (t, t.r) pairs from a target and cutting into words (20% perturbed); "
              "brute_force: random vocabularies, first n results within m candidates; biclosed2rigid: "
-             "F16/Curry corpus, every FA/BA/FC/BC/FX/BX box over 7 side types (empty, atomic, "
+             "former F16/F21 inputs and a Curry corpus, every FA/BA/FC/BC/FX/BX box over 7 side types (empty, atomic, "
              "composite, slash, empty-image), random boxes and multi-box diagrams with nested slash "
              "types of depth <= 3 and nested Curry, ~15% malformed (offsets, cod, constructor "
              "arguments); object map on random types; CFG.generate on random grammars with recorded "
@@ -839,6 +797,8 @@ def run(tier, seed):
             "set membership of sentences (remove_duplicates) is modelled by ==; grammars whose Word "
             "and Box productions are == but print differently are not generated",
             "atoms of biclosed types have names of <= 6 latin-1 characters (wire format)",
-            "known findings are recognised by: implementation == bug-compatible model, oracle "
-            "fails, trigger predicate holds (has_composite_ba / has_empty_right_curry)"],
+            "right Curry boxes with n_wires outside 0..len(diagram.dom) (at any depth) are out of "
+            "contract: compared with the model, not judged by the image oracle",
+            "no known finding is excused: F16 (20fba5f) and F21 (fbf277b) are fixed upstream and "
+            "their minimal inputs are ordinary corpus cases"],
         checker_cmd="make -C coq Props/C18.vo  (coqc 8.16.1, Print Assumptions parsed)")
